@@ -102,6 +102,18 @@ class PhysicsOrbit(OrbitBase):
             # Make first call to the methods reinit method.
             self.reinit(initial_init=True, reinit_worlds=False, run_update=True)
 
+    def set_state(self, world_signature: 'WorldSignatureType', *args, set_by_world: bool = False, **kwargs):
+        """ Set the orbital state of a world. See `OrbitBase.set_state` for the parameters. """
+
+        super().set_state(world_signature, *args, set_by_world=set_by_world, **kwargs)
+
+        if set_by_world and self.star_host:
+            # `orbit_changed` is not called on this path (the world makes its own updates), but when the star is the tidal
+            #    host the world's own orbit is its stellar orbit: the insolation heating changed too.
+            world_instance = self.tidal_objects[self.world_signature_to_index(world_signature)]
+            if world_instance is not self.star and self.get_stellar_distance(world_instance) is not None:
+                self.calculate_insolation(world_instance)
+
     def orbit_changed(
         self, specific_world: 'WorldSignatureType' = None, orbital_freq_changed: bool = False,
         eccentricity_changed: bool = False
@@ -127,6 +139,12 @@ class PhysicsOrbit(OrbitBase):
         #    the orbit's dissipation_changed method
         world_index = self.world_signature_to_index(specific_world)
         world_instance = self.tidal_objects[world_index]
+
+        # When the star is the tidal host, the world's own orbit is its stellar orbit: the insolation heating changed too.
+        if self.star_host and world_instance is not self.star and (orbital_freq_changed or eccentricity_changed):
+            if self.get_stellar_distance(world_instance) is not None:
+                self.calculate_insolation(world_instance)
+
         self.dissipation_changed(world_instance)
 
     def dissipation_changed(self, world_signature: 'WorldSignatureType') -> bool:
